@@ -60,6 +60,32 @@ fn main() {
             let d = deriv::Deriver::new(&rg, &toks);
             for (r, dp) in d.roots() { println!("  dp={} {}", dp, deriv::render(&r)); }
         }
+        "reuse-log" => {
+            // reuse-log <lang> <n>: histogram of parse-log events of one incremental re-parse (debugging aid)
+            let z = zoo::by_name(&args[2]).expect("zoo language");
+            let l = lang::build(&z.spec, tree_sitter_generate::OptLevel::default()).expect("build");
+            let (doc, edit_at) = checks::c12::gen_doc(&args[2], args[3].parse().unwrap());
+            let mut p = tree_sitter::Parser::new();
+            p.set_language(&l.language).unwrap();
+            let tree = p.parse(&doc, None).unwrap();
+            let pos = edit_at[edit_at.len() / 2];
+            let e = text::Edit { start: pos, old_len: 1, ins: b"q".to_vec() };
+            let (nt, ie) = text::apply(&doc, &e);
+            let mut old = tree.clone();
+            old.edit(&ie);
+            let hist = std::sync::Arc::new(std::sync::Mutex::new(std::collections::BTreeMap::<String, usize>::new()));
+            let h2 = hist.clone();
+            let verbose = args.len() > 4;
+            let seen_edit = std::sync::Arc::new(std::sync::atomic::AtomicUsize::new(0));
+            let se = seen_edit.clone();
+            p.set_logger(Some(Box::new(move |_t, m: &str| {
+                if verbose { if m.starts_with("cant_reuse_node_has_changes") || se.load(std::sync::atomic::Ordering::Relaxed) > 0 { let n = se.fetch_add(1, std::sync::atomic::Ordering::Relaxed); if n < 140 { eprintln!("LOG {}", m); } } } let k = m.split(|c: char| c == ' ' || c == ':').next().unwrap_or("").to_string(); let k = if m.starts_with("reuse_node") || m.starts_with("cant_reuse") || m.starts_with("reduce") { m.split(',').next().unwrap_or(m).to_string() } else { k }; *h2.lock().unwrap().entry(k).or_insert(0) += 1; })));
+            let t2 = p.parse(&nt, Some(&old)).unwrap();
+            println!("nodes {} error {}", t2.root_node().descendant_count(), t2.root_node().has_error());
+            let mut v: Vec<(String, usize)> = hist.lock().unwrap().iter().map(|(k, v)| (k.clone(), *v)).collect();
+            v.sort_by_key(|x| std::cmp::Reverse(x.1));
+            for (k, c) in v.iter().take(25) { println!("{:8} {}", c, k); }
+        }
         "probe" => {
             // probe <lang> <text>: print the explicit tree with indices (debugging aid)
             let z = zoo::by_name(&args[2]).expect("zoo language");
